@@ -356,6 +356,20 @@ CLAIMED["C23"] = (
     "DESIGN.md section 6 C23",
 )
 
+CLAIMED["C20"] = (
+    "compute_geometry is executed on a grid with SYMBOLIC node displacements and on its image under x -> R x + t with "
+    "a SYMBOLIC translation t and R from seven exact rational proper rotations (in-plane 90 degrees and 3-4-5, "
+    "embeddings of the planar grid in the xz-plane and in two tilted planes, a rotation reversing the plane normal; "
+    "1-d grids on the rotated lines). z3 decides for all translations and displacements that cell volumes and face "
+    "areas are unchanged, that cell and face centres are mapped by the motion and that the face normals are mapped "
+    "by R.",
+    "Rotations restricted to rational matrices (a symbolic rotation angle leads to the nested square roots of DESIGN.md "
+    "10.5); 2x2 Cartesian / triangle grids with one displaced node, 1-d grids with 3 cells; no 3-d grids.",
+    "symbolic execution of the real Python source over real terms + SMT (z3 nlsat) + interval branch-and-bound for "
+    "inequalities",
+    "DESIGN.md section 6 C20",
+)
+
 CLAIMED["C22"] = (
     "extract_subgrid is executed on Cartesian and structured-triangle grids with 1-2 SYMBOLIC node displacements for "
     "enumerated cell subsets (connected or not, sorted or unsorted). For all displacements: the copied geometry is "
@@ -419,7 +433,6 @@ NOT_APPLICABLE = {
     "C15": "Biot coupling matrices are by-products of the MPSA local inversion (C13).",
     "C16": "TPSA assembly runs on scipy sparse-array kernels and its second clause needs spsolve of the full system; not encodable within reach.",
     "C18": "RT0/MVEM exactness needs the saddle-point solve (spsolve); SPD-ness for symbolic geometry is a quantified nonlinear inequality on top of einsum/linalg kernels.",
-    "C20": "Rigid-motion equivariance needs a symbolic rotation applied to symbolic nodes and the plane-fitting path (compute_normal, project_plane_matrix): towers of nested square roots and arccos-based rotations that z3 did not decide within minutes per obligation (DESIGN.md 10.5); the un-rotated geometry identities are covered by C19.",
     "C30": "Distances are square roots compared with each other across case splits (closest feature selection); the nested-root queries were not decided by z3 in time and interval branch-and-bound cannot prove equalities (DESIGN.md 10.5).",
     "C32": "rotation_matrix / project_plane_matrix / compute_normal / 3-d TangentialNormalProjection on symbolic directions produce towers of 3-4 nested square roots; z3 needed minutes per orthogonality obligation or did not return (harness pv/props/c32.py kept, unregistered; DESIGN.md 10.5).",
     "C21": "Quantifies over grid topologies only; all inputs are concrete index arrays processed by compiled scipy kernels - nothing for a solver to decide.",
